@@ -15,7 +15,7 @@
    Both assumptions are exercised by the correspondence (the harness decodes the real payload
    bytes and the comparison is made on the decoded value).
 
-   The record [quirks] switches on the four defects this model was first written against and that
+   The record [quirks] switches on the five defects this model was first written against and that
    were repaired in /repo; [fixed] (all off) is the behaviour of the code, [legacy] the behaviour
    before the repairs (kept for the witnesses in proofs/SpansProofs.v and for diagnosing a
    regression in the check). *)
@@ -28,10 +28,13 @@ Record quirks := {
   q_list_drop : bool;        (* writeAttrValue handed *AnyValue of list elements to the oneof switch: lists yield no tags *)
   q_remote_inverted : bool;  (* remoteEndpoint: if z.serviceName != "" { z.serviceName = remote } *)
   q_nd_stateful : bool;      (* NDJSON framing: no per-line reset, payload never set *)
-  q_peer_first : bool        (* parseOTLP: peer.service before service.name, service.name always rewritten *)
+  q_peer_first : bool;       (* parseOTLP: peer.service before service.name, service.name always rewritten *)
+  q_parent_payload : bool    (* parseZipkinJSON: parent only from a 16-digit "parentId" of the payload, parent_id column ignored *)
 }.
-Definition fixed : quirks := {| q_list_drop := false; q_remote_inverted := false; q_nd_stateful := false; q_peer_first := false |}.
-Definition legacy : quirks := {| q_list_drop := true; q_remote_inverted := true; q_nd_stateful := true; q_peer_first := true |}.
+Definition fixed : quirks :=
+  {| q_list_drop := false; q_remote_inverted := false; q_nd_stateful := false; q_peer_first := false; q_parent_payload := false |}.
+Definition legacy : quirks :=
+  {| q_list_drop := true; q_remote_inverted := true; q_nd_stateful := true; q_peer_first := true; q_parent_payload := true |}.
 
 (* ------------------------------------------------------------------ numbers *)
 Definition two63 : Z := 9223372036854775808.
@@ -417,7 +420,7 @@ Definition zipkin_kind (fs : list (string * jv)) : Z :=
   | None => 0
   end.
 
-(* decodeParentId: exactly 16 hex characters, anything else leaves the parent empty *)
+(* payload path of the parent: decodeParentId takes exactly 16 hex characters, anything else leaves the parent empty *)
 Definition read_parent (fs : list (string * jv)) : string :=
   match jget_str "parentId" fs with
   | Some p => if Nat.eqb (String.length p) 16 then match hex_decode p with Some b => b | None => "" end else ""
@@ -445,7 +448,7 @@ Definition read_endpoint (name : string) (fs : list (string * jv)) : attrs * opt
   | _ => ([], None)
   end.
 
-Definition parse_zipkin (row : trow) (e : jv) : option rspan :=
+Definition parse_zipkin (q : quirks) (row : trow) (e : jv) : option rspan :=
   let fs := match e with JObj fs => fs | _ => [] end in
   if Nat.ltb (String.length (t_trace row)) 16 || Nat.ltb (String.length (t_span row)) 8 then None  (* slice out of range *)
   else
@@ -457,7 +460,9 @@ Definition parse_zipkin (row : trow) (e : jv) : option rspan :=
                | None => match rs with Some s' => s' | None => "" end
                end in
     Some {| rs_trace := substring 0 16 (t_trace row); rs_span := substring 0 8 (t_span row);
-            rs_parent := read_parent fs;
+            (* the stored parent_id column when it holds 8 bytes, else the payload *)
+            rs_parent := if negb (q_parent_payload q) && Nat.eqb (String.length (t_parent row)) 8 then t_parent row
+                         else read_parent fs;
             rs_name := match jget_str "name" fs with Some s => s | None => "" end;
             rs_start := to_u64 (t_ts row); rs_end := to_u64 (wrap64 (t_ts row + t_dur row));
             rs_kind := zipkin_kind fs;
@@ -486,7 +491,7 @@ Definition parse_otlp (q : quirks) (s : ospan) : rspan :=
 Definition read_row (q : quirks) (elems : list jv) (row : trow) : option rspan :=
   if t_ptype row =? 1 then
     match t_payload row with
-    | PRef i => match nth_error elems (N.to_nat i) with Some e => parse_zipkin row e | None => None end
+    | PRef i => match nth_error elems (N.to_nat i) with Some e => parse_zipkin q row e | None => None end
     | _ => None
     end
   else if t_ptype row =? 2 then
@@ -606,14 +611,6 @@ Definition zipkin_pushed (e : jv) : option pushed :=
       | _, _ => None
       end
   | _ => None
-  end.
-
-(* the read path only takes a parent id of exactly 16 hex digits from the payload (finding
-   zipkin-short-parent-id): guard of read_back for Zipkin spans *)
-Definition parent_len_ok (e : jv) : bool :=
-  match e with
-  | JObj fs => match jget_str "parentId" fs with Some p => Nat.eqb (String.length p) 16 | None => true end
-  | _ => true
   end.
 
 Definition pushed_of (i : input) : option (list pushed) :=
@@ -746,12 +743,12 @@ Fixpoint has_prefix (p s : string) : bool :=
   end.
 Definition synth_key (k : string) : bool :=
   String.eqb k k_service || has_prefix "localEndpoint." k || has_prefix "remoteEndpoint." k.
-Definition read_ok (check_parent : bool) (p : pushed) (o : option rspan) : bool :=
+Definition read_ok (p : pushed) (o : option rspan) : bool :=
   match o with
   | None => false
   | Some r =>
       String.eqb (rs_trace r) (p_trace p) && String.eqb (rs_span r) (p_span p)
-      && (negb check_parent || String.eqb (rs_parent r) (p_parent p))
+      && String.eqb (rs_parent r) (p_parent p)
       && String.eqb (rs_name r) (p_name p)
       && (rs_start r =? to_u64 (p_ts p)) && (rs_end r =? to_u64 (wrap64 (p_ts p + p_dur p)))
       && (if p_ordered p
@@ -759,40 +756,32 @@ Definition read_ok (check_parent : bool) (p : pushed) (o : option rspan) : bool 
                && forallb (fun kv => synth_key (fst kv)) (skipn (List.length (p_attrs p)) (rs_attrs r))
           else perm_eqb attr_eqb (p_attrs p) (rs_attrs r))
   end.
-Definition parent_guards (i : input) : list bool :=
-  match i with InZipkin _ es => map parent_len_ok es | InOtlp b => map (fun _ => true) (batch_spans b) end.
-Fixpoint reads_ok (strict : bool) (gs : list bool) (ps : list pushed) (os : list (option rspan)) : bool :=
-  match gs, ps, os with
-  | [], [], [] => true
-  | g :: gs', p :: ps', o :: os' => read_ok (strict || g) p o && reads_ok strict gs' ps' os'
-  | _, _, _ => false
-  end.
+Definition reads_ok (ps : list pushed) (os : list (option rspan)) : bool := all2 read_ok ps os.
 
 (* accepted requests of the property's domain (every id 16/8 bytes wide, objects without repeated
-   member names) must satisfy all three clauses.  [strict]: also outside the guard of read_back_partial. *)
-Definition spec_ok (strict : bool) (c : case) : bool :=
+   member names) must satisfy all three clauses. *)
+Definition spec_ok (c : case) : bool :=
   if c_err c then true
   else match pushed_of (c_in c) with
        | None => true
        | Some ps =>
            if forallb widths_ok ps then
              rows_ok (c_in c) 0%N ps (c_rows c) && tags_ok ps (c_tags c)
-             && reads_ok strict (parent_guards (c_in c)) ps (c_read c)
+             && reads_ok ps (c_read c)
            else true
        end.
-Definition spec_violation (c : case) : bool := negb (spec_ok false c).
-Definition known_short_parent (c : case) : bool := spec_ok false c && negb (spec_ok true c).
+Definition spec_violation (c : case) : bool := negb (spec_ok c).
 
 Definition mismatches (cs : list case) : list Z := map c_id (filter model_mismatch cs).
 Definition spec_violations (cs : list case) : list Z := map c_id (filter spec_violation cs).
-Definition short_parent_hits (cs : list case) : list Z := map c_id (filter known_short_parent cs).
 (* diagnosis of a mismatch: which single legacy defect, switched back on, explains the observation *)
 Definition with_quirk (n : nat) : quirks :=
-  {| q_list_drop := Nat.eqb n 0; q_remote_inverted := Nat.eqb n 1; q_nd_stateful := Nat.eqb n 2; q_peer_first := Nat.eqb n 3 |}.
+  {| q_list_drop := Nat.eqb n 0; q_remote_inverted := Nat.eqb n 1; q_nd_stateful := Nat.eqb n 2; q_peer_first := Nat.eqb n 3;
+     q_parent_payload := Nat.eqb n 4 |}.
 Definition explains (n : nat) (c : case) : bool := write_matches (with_quirk n) c && read_matches (with_quirk n) c.
 Definition regressions (cs : list case) : list (Z * Z) :=
   flat_map (fun c => if model_mismatch c
-                     then map (fun n => (c_id c, Z.of_nat n)) (filter (fun n => explains n c) [0; 1; 2; 3]%nat)
+                     then map (fun n => (c_id c, Z.of_nat n)) (filter (fun n => explains n c) [0; 1; 2; 3; 4]%nat)
                      else []) cs.
 
 (* run-length form used by generated case files: consecutive tag rows with the same ids and times *)
